@@ -347,7 +347,8 @@ type PathResult struct {
 	Pending    [][]Decision
 	Abort      *abortPath
 	Reached    map[string]int
-	Asserts    map[string]int // assertion id -> discharged count
+	Asserts    map[string]int // assertion id -> instances discharged by a solver query (unsat)
+	Folded     map[string]int // assertion id -> instances that the term rewriter reduced to true (no query needed)
 	Violations []Violation
 	Steps      int
 	Funcs      map[*ssa.Function]bool
@@ -680,7 +681,7 @@ func (x *Exec) assert(v value, id string, pos string) {
 		panic(fmt.Sprintf("vAssert: %T", v))
 	}
 	if t.IsConst() && t.Val == 1 {
-		r.Asserts[id]++
+		r.Folded[id]++
 		return
 	}
 	if x.concrete != nil {
@@ -772,7 +773,7 @@ func (p *Program) RunPath(fn *ssa.Function, prefix []Decision, c *smt.Ctx, s *sm
 	if x.MaxConcretize == 0 {
 		x.MaxConcretize = 24
 	}
-	res = &PathResult{Reached: map[string]int{}, Asserts: map[string]int{}, Funcs: map[*ssa.Function]bool{}, Stubs: map[string]bool{}}
+	res = &PathResult{Reached: map[string]int{}, Asserts: map[string]int{}, Folded: map[string]int{}, Funcs: map[*ssa.Function]bool{}, Stubs: map[string]bool{}}
 	x.res = res
 	i := &interpreter{
 		prog:    p.Prog,
